@@ -141,6 +141,9 @@ func runSkipper(which int, b []byte, t byte, r *rand.Rand, sched int, withData b
 	case skReaderDec:
 		return guarded(func() skipOut {
 			src := &doubles.Source{Data: b, Len: len(b), ErrAt: len(b), Err: io.EOF, Sched: sched, R: r, WithData: withData, Budget: 10*len(b) + 100000}
+			if len(b) <= 400 && r.Intn(4) == 0 {
+				src.Churn = func() { san.PoolChurn(2048) } // the reader itself uses the shared pool
+			}
 			d := thrift.NewReaderSkipDecoder(src)
 			defer d.Release()
 			out, err := d.Next(tt)
